@@ -167,7 +167,9 @@ def handle_stream_body(ctx, F):
     """server::handle_stream's coroutine with the private (async) helpers of server.rs it is split into looked through"""
     hs0 = F.one_body(r"^selium_server::server::handle_stream::\{closure#0\}$")
     ctx.touch(hs0)
-    return F.inlined(hs0, only=("selium_server::server::",))
+    # (also constructors on the topic handle type such as a `Sender::spawn_topic`, but never the routers or the queue operations)
+    keep = [p_ for p_ in F.bodies if p_.startswith("selium_server::topic::Sender::") and p_.split("::{")[0].rsplit("::", 1)[-1] in ("send", "accepts", "close_channel", "clone")]
+    return F.inlined(hs0, only=("selium_server::server::", "selium_server::topic::Sender::"), keep=keep)
 
 
 WAKES = ("core::task::wake::Waker::wake_by_ref", "core::task::wake::Waker::wake")
